@@ -1,5 +1,5 @@
 """C02 — energy is conserved and losses / efficiency / temperature are accounted exactly."""
-from .. import gen, oracles, tablecheck
+from .. import gen, oracles, solved, tablecheck
 
 CLAIM = True
 MODULE = "SysLoss.Props.C02"
@@ -64,5 +64,40 @@ def solve_kw(rng):
     return kw
 
 
+def tiny_probe(rng):
+    """Source -> one element of every non-load kind with ALL its optional parameters set -> a load drawing between 1 nA and
+    1 uA (or nothing at all): where `io == 0` versus `io < eps`, quiescent versus loaded branches and absolute cut-offs decide"""
+    v = gen.sd(rng, 1.5, 24.0)
+    if rng.random() < 0.25:
+        v = -v
+    kind = rng.choice(["converter", "linreg", "pswitch", "pmux", "rloss", "vloss", "rectifier", "rectifier"])
+    a = abs(v)
+    args = {"converter": {"vo": gen.sd(rng, 0.8, 12), "eff": gen.ud(rng, 0.6, 0.97), "iq": gen.sd(rng, 1e-6, 1e-4), "iis": gen.sd(rng, 1e-8, 1e-6)},
+            "linreg": {"vo": gen.sd(rng, 0.3, 0.8 * a), "vdrop": gen.sd(rng, 0.01, 0.1 * a), "ig": gen.sd(rng, 1e-7, 1e-5), "iis": gen.sd(rng, 1e-8, 1e-6)},
+            "pswitch": {"rs": gen.sd(rng, 1e-3, 5.0), "ig": gen.sd(rng, 1e-7, 1e-5), "iis": gen.sd(rng, 1e-8, 1e-6)},
+            "pmux": {"rs": gen.sd(rng, 1e-3, 5.0), "ig": gen.sd(rng, 1e-7, 1e-5), "iis": gen.sd(rng, 1e-8, 1e-6)},
+            "rloss": {"rs": gen.sd(rng, 1e-3, 50.0)},
+            "vloss": {"vdrop": gen.sd(rng, 0.01, 0.3 * a)},
+            "rectifier": ({"rs": gen.sd(rng, 1e-3, 1.0), "ig": gen.sd(rng, 1e-7, 1e-5), "iq": gen.sd(rng, 1e-6, 1e-4)} if rng.random() < 0.6
+                          else {"vdrop": gen.sd(rng, 0.01, 0.2 * a)})}[kind]
+    args["rt"] = gen.sd(rng, 1, 100)
+    comps = [{"name": "S", "kind": "source", "args": {"vo": v, "rs": gen.sd(rng, 1e-3, 0.5) if v > 0 else 0.0}, "parents": []},
+             {"name": "E", "kind": kind, "args": args, "parents": ["S"]}]
+    r = rng.random()
+    if r < 0.7:
+        comps.append({"name": "L", "kind": "iload", "args": {"ii": float("%.3g" % (10 ** rng.uniform(-9, -6)))}, "parents": ["E"]})
+    elif r < 0.85:
+        comps.append({"name": "L", "kind": "iload", "args": {"ii": 0.0}, "parents": ["E"]})
+    return {"name": "tiny", "comps": comps, "phases": {}}
+
+
 tablecheck.make(globals(), cols=["pwr", "loss", "eff", "tr", "tp"], textcols=["typ"], oracle=oracles.o_c02,
                 gen_fn=gen_fn, solve_kw=solve_kw)
+
+_run_main = run  # noqa: F821
+
+
+def run(ctx):
+    _run_main(ctx)
+    solved.run_cases(ctx, ctx.n(60, 1200), tiny_probe, per_case, solve_kw)       # noqa: F821
+    ctx.stats["tiny_probe_stream"] += ctx.n(60, 1200)
